@@ -73,14 +73,13 @@ Theorem C12_inter_member : forall sub hasm chk fresh n ts t r,
 Proof. exact tord_inter_member. Qed.
 Print Assumptions C12_inter_member.
 
-(* FULL STATEMENT: every value-dependent type is more specific than its bound.
-   PROVED for Literal / Dependent / StartsWith... / the Sequence-Collection-Mapping element checks;
-   refuted for tuple[...] (C12_dep_bound_refuted_tuple, KF-24). *)
-Theorem C12_dep_bound_partial : forall sub hasm chk fresh n t r,
-  is_dep3 t = true -> is_dep (dep_bound t) = false ->
+(* every value-dependent type -- Literal, Dependent, StartsWith..., the Sequence / Collection / Mapping element checks and,
+   since the repair of KF-24, tuple[...] -- is more specific than its bound *)
+Theorem C12_dep_bound : forall sub hasm chk fresh n t r,
+  is_dep t = true -> is_dep (dep_bound t) = false ->
   tord sub hasm chk fresh (S (S n)) t (dep_bound t) = Some r -> r = LESS.
 Proof. exact tord_dep_bound. Qed.
-Print Assumptions C12_dep_bound_partial.
+Print Assumptions C12_dep_bound.
 
 (* ---- witnesses: the full mirror statement is false of the faithful model ---- *)
 (* classes: 0 object, 1 A, 2 B, 3 C (unrelated), 4 tuple *)
@@ -98,17 +97,8 @@ Theorem C12_mirror_refuted_inter :
 Proof. exists (Int [Cls 1; Cls 2]), (Int [Cls 2; Cls 3]). vm_compute. split; reflexivity. Qed.
 Print Assumptions C12_mirror_refuted_inter.
 
-(* KF-07: two objects spelling Exactly[A]: unequal, MORE in both directions *)
-Theorem C12_mirror_refuted_exactly :
-  exists t1 t2, typeorder_h wh t1 t2 = Some MORE /\ typeorder_h wh t2 t1 = Some MORE.
-Proof. exists (Exa 1 1), (Exa 2 1). vm_compute. split; reflexivity. Qed.
-Print Assumptions C12_mirror_refuted_exactly.
-
-(* KF-24: tuple[A, B] is unrelated to its bound tuple *)
-Theorem C12_dep_bound_refuted_tuple :
-  exists t, is_dep t = true /\ typeorder_h wh t (dep_bound t) = Some NONE.
-Proof. exists (Prod [Cls 1; Cls 2] (Cls 4)). vm_compute. split; reflexivity. Qed.
-Print Assumptions C12_dep_bound_refuted_tuple.
+(* (KF-07, two objects spelling Exactly[A] being unequal, and KF-24, tuple[...] unrelated to tuple, were repaired in
+   /repo; their witnesses are replayed by the check and must pass.) *)
 
 (* ---- non-vacuity: inputs that satisfy the hypotheses of the partial theorems ---- *)
 Example C12_mirror_domain_inhabited :
